@@ -34,7 +34,8 @@ COMPONENTS = {
     "stub": ["SimCommand/SimTransferStep/SimOutputProcessor (harness job bodies)", "aiosqlite thread -> FIFO server"],
 }
 ASSUMPTIONS = ["the remote mode schedules jobs without executing them (ScheduleStep + DeployStep only): the statement is about what a scheduled job receives"]
-TIERS = {"quick": {"runs": 500, "budget_s": 55}, "thorough": {"runs": 30000, "budget_s": 480, "chunk": 8}}
+TIERS = {"quick": {"runs": 500, "budget_s": 55, "chunk": 4}, "thorough": {"runs": 30000, "budget_s": 480, "chunk": 8}}
+STALL_S = 600   # real child processes: a chunk may need minutes on a loaded machine
 SIM_KW = _c16.SIM_KW
 
 
